@@ -3,6 +3,7 @@ package rules
 import (
 	"fmt"
 	"go/constant"
+	"go/token"
 	"go/types"
 	"strings"
 
@@ -16,7 +17,8 @@ import (
 func init() {
 	register(&RuleSet{
 		ID: "C11",
-		Explanation: "R10 existence probes: an in-repo implementation of the storage client's Exists answers a result that can be true only where the error of its probing call is known nil (cannot-tell is not exists). " +
+		Explanation: "R11 the upload function around the no-clobber gate of sign/gcsca returns a nil error only behind the gate call or for a key version that already has a manifest entry. " +
+			"R10 existence probes: an in-repo implementation of the storage client's Exists answers a result that can be true only where the error of its probing call is known nil (cannot-tell is not exists). " +
 			"R9 the local storage back end's object writer opens files truncating (a rewritten manifest keeps no stale tail). " +
 			"In sign/gcsca (the only storage-backed authority; localca wraps it). Storage writes are calls of storage/ops.WriteFile (and direct Storage.Writer invokes); a write is the manifest write when its object-name operand is the constant gcsca.ManifestObjectName. " +
 			"R1 (ESP on Finalize): no object write after the manifest write on any path. R2 (ESP): the manifest write is unreachable after a failed object write / failed upload step. " +
@@ -36,6 +38,7 @@ func init() {
 
 func runC11(c *Ctx) {
 	defer c11ExistenceProbes(c)
+	defer c11UploadThroughGate(c)
 	// R9: the local storage back end replaces an object wholly when it is rewritten (a shorter manifest over a longer
 	// one keeps no stale tail): file-opening primitives in the closure of its Writer are truncating.
 	{
@@ -723,4 +726,62 @@ func c11ExistenceProbes(c *Ctx) {
 
 func isErrorType(t types.Type) bool {
 	return types.Identical(t, types.Universe.Lookup("error").Type())
+}
+
+// c11UploadThroughGate is R11: "uploaded" is only said after the upload. A function of sign/gcsca that reports what it
+// wrote (a value and an error) and contains the call of the no-clobber gate returns a nil error only behind that call,
+// or where the key version was found to have a manifest entry already (the keep-going shortcut). Any other successful
+// return — an interrupted context, a flag — lets Finalize go on to write a manifest that names a key whose certificate
+// was never stored.
+func c11UploadThroughGate(c *Ctx) {
+	storPkg := repoPath("storage/storagei")
+	wf := c.P.Func("storage/ops", "WriteFile")
+	gates := map[*ssa.Function]bool{}
+	for _, g := range c.funcsCalling(func(call ssa.CallInstruction) bool { return invokeIs(call, storPkg, "Client", "Exists") }) {
+		if load.RelPkg(g) == "sign/gcsca" && wf != nil && len(callsIn(g, func(call ssa.CallInstruction) bool { return call.Common().StaticCallee() == wf })) > 0 {
+			gates[g] = true
+		}
+	}
+	n := 0
+	for _, f := range c.P.RepoFunctions() {
+		if load.RelPkg(f) != "sign/gcsca" || c.isTestFunc(f) || f.Blocks == nil || gates[f] {
+			continue
+		}
+		ei := errIndex(f.Signature)
+		if ei < 1 {
+			continue
+		}
+		gcalls := callsIn(f, func(call ssa.CallInstruction) bool { return gates[call.Common().StaticCallee()] })
+		if len(gcalls) == 0 {
+			continue
+		}
+		n++
+		ok, at := true, f.Pos()
+		for _, b := range f.Blocks {
+			ret, isRet := b.Instrs[len(b.Instrs)-1].(*ssa.Return)
+			if !isRet || !isNilK(ret.Results[ei]) {
+				continue
+			}
+			through := false
+			for _, gc := range gcalls {
+				if gc.Block().Dominates(b) {
+					through = true
+				}
+			}
+			for _, cf := range dominatingConds(b) {
+				bo, isB := cf.Cond.(*ssa.BinOp)
+				if !isB || !isNilK(bo.Y) || (bo.Op == token.NEQ) != cf.Val {
+					continue
+				}
+				if call, isCall := bo.X.(*ssa.Call); isCall && typeMentions(call, repoPath("proto/certificates"), "GCECertificateManifest_Entry") {
+					through = true // the key version already has a manifest entry
+				}
+			}
+			if !through {
+				ok, at = false, ret.Pos()
+			}
+		}
+		c.S.Check(ok, "R11", load.FuncName(f)+":success only through the upload gate", c.pos(at), "a nil error is returned only behind the gate call or for a key version that already has a manifest entry", "the upload can report success without having gone through the no-clobber gate and without the key version having a manifest entry: the caller records the key in the manifest although no certificate was stored for it")
+	}
+	c.S.Floor("R11", "upload functions around the no-clobber gate in sign/gcsca", 1, n)
 }
